@@ -177,6 +177,9 @@ func runC02case(t *vf.T, c c02case) {
 // c02errClass names the kind of an error for signatures.
 func c02errClass(e error) string {
 	s := e.Error()
+	if strings.Contains(s, "gob: ") {
+		return "gob-decode"
+	}
 	for _, k := range []string{"integrity error", "unexpected EOF", "consecutive", "too many tries", "invalid invocation", "resource unavailable", "context"} {
 		if strings.Contains(s, k) {
 			return strings.ReplaceAll(k, " ", "-")
